@@ -909,7 +909,12 @@ package astits
 
 //@ func isSameAsPrevious
 //@   requires p != nil && 0 <= len(ps) && (len(ps) > 0 ==> ps[len(ps) - 1] != nil)
-//@   ensures [C06,C07,C02] same: result == (len(ps) > 0 && p.Header.HasPayload && p.Header.ContinuityCounter == ps[len(ps) - 1].Header.ContinuityCounter)
+//@   requires len(ps) > 0 ==> 0 <= len(p.Payload) && 0 <= len(ps[len(ps) - 1].Payload)
+//@   ensures [C06,C07,C02] same: result == (len(ps) > 0 && p.Header.HasPayload && p.Header.ContinuityCounter == ps[len(ps) - 1].Header.ContinuityCounter && sameBytes(p.Payload, ps[len(ps) - 1].Payload))
+
+// bytes.Equal (assumed, per its documentation): true exactly when both slices have the same length and bytes.
+//@ extern bytes.Equal
+//@   ensures doc: result == sameBytes(a, b)
 
 // isPSIComplete is specified only as far as add needs it (it allocates nothing the caller
 // can see and changes no packet); its result is left uninterpreted here.
@@ -921,7 +926,8 @@ package astits
 //@   modifies b.q
 //@   let n = old(len(b.q))
 //@   let last = old(b.q[len(b.q) - 1])
-//@   let dup = n > 0 && p.Header.HasPayload && p.Header.ContinuityCounter == last.Header.ContinuityCounter
+//@   requires 0 <= len(p.Payload) && (len(b.q) > 0 ==> 0 <= len(b.q[len(b.q) - 1].Payload))
+//@   let dup = n > 0 && p.Header.HasPayload && p.Header.ContinuityCounter == last.Header.ContinuityCounter && sameBytes(p.Payload, last.Payload)
 //@   let discInd = p.Header.HasAdaptationField && p.AdaptationField.DiscontinuityIndicator
 //@   let gap = n > 0 && ((p.Header.HasPayload && p.Header.ContinuityCounter != (last.Header.ContinuityCounter + 1) % 16) || (!p.Header.HasPayload && p.Header.ContinuityCounter != last.Header.ContinuityCounter))
 //@   let psiPID = b.programMap != nil && (b.pid == 0 || has(b.programMap.p, u32(b.pid)))
@@ -931,6 +937,7 @@ package astits
 //@   ensures [C06,C02] flushlen: !dup && p.Header.PayloadUnitStartIndicator && !psiPID ==> len(b.q) == 1 && fresh(b.q)
 //@   ensures [C06,C02] extendlen: !dup && !discInd && !gap && !p.Header.PayloadUnitStartIndicator && !psiPID ==> len(ps) == 0 && len(b.q) == n + 1
 //@   ensures [C06] gapreset: !dup && (discInd || gap) && !p.Header.PayloadUnitStartIndicator && !psiPID ==> len(ps) == 0 && len(b.q) == 1
+//@   ensures [C06] gapdrop: n > 0 && p.Header.HasPayload && p.Header.ContinuityCounter != last.Header.ContinuityCounter && gap && !p.Header.PayloadUnitStartIndicator && !psiPID ==> len(b.q) == 0
 //@   ensures [C06] gapstart: !dup && (discInd || gap) && p.Header.PayloadUnitStartIndicator && !psiPID ==> len(ps) == 0 && len(b.q) == 1
 //@   opt noframe
 
